@@ -21,7 +21,7 @@ path = os.path.join(VERIF, "DESIGN.md")
 text = open(path, encoding="utf8").read()
 begin, end = "<!-- SEED_TABLE_BEGIN -->", "<!-- SEED_TABLE_END -->"
 if begin in text:
-    text = re.sub(re.escape(begin) + ".*?" + re.escape(end), begin + "\n" + table + "\n" + end, text, flags=re.S)
+    text = re.sub(re.escape(begin) + ".*?" + re.escape(end), lambda _m: begin + "\n" + table + "\n" + end, text, flags=re.S)
 else:
     text = text.replace("SEED_TABLE", begin + "\n" + table + "\n" + end)
 # theorem inventory per property, from the evidence files of the last clean run
